@@ -85,6 +85,7 @@ fn main() {
             report = Report::new("C02", "generated histories over {replace tree by a mutated one (add/modify/touch/chmod/chown/remove/rename/file<->dir), backup(options), backup interrupted at a random mutating micro-step, resume, delete(subset), gc}; after every step each surviving complete version and 'latest complete' is restored and compared with the snapshot taken when it was made; non-trivial = more than one backup step; distinct by canonical history text");
             c02::run(&tier, seed, &mut report);
             plumbing::c02_latest_complete_under_stat_fault(&mut report);
+            plumbing::c02_ids_beyond_9999(&mut report);
         }
         "C03" => {
             report = Report::new("C03", "scenarios (history prefix, changed tree, options) x EVERY mutating micro-step k of the backup's storage trace (before each operation, and after a write created its file empty); each crash state is checked by the property's oracles, compared with the model's prefix state, and (sampled in quick, all in thorough) resumed by a full backup; all cases non-trivial; distinct by scenario seed and k");
@@ -97,6 +98,7 @@ fn main() {
         "C05" => {
             report = Report::new("C05", "scenarios (history with several versions, garbage from deletes/interrupted runs); EVERY subset of (up to 5) existing versions x {dry-run, real}; for selected (thorough: all) real runs every crash point and every single failing read/list operation; non-trivial = something to delete or collect, or a crash/fault; distinct by scenario seed, subset and plan");
             c05::run(&tier, seed, &mut report);
+            plumbing::c05_ids_beyond_9999(&mut report);
         }
         "C06" => {
             report = Report::new("C06", "archives with one or two complete versions plus one garbage block whose content reappears in the new source; one backup (A) and one gc / delete of the oldest version (B) under schedules 'A runs i ops, B runs j, A runs k, B runs l, then A to the end, then B' covering the window around gc's check() and the backup's mkdir exhaustively, plus random schedules; non-trivial = both actors move inside the schedule; distinct by scenario seed and schedule");
@@ -114,6 +116,7 @@ fn main() {
         "C07" => {
             report = Report::new("C07", "a direct CreateNew test on the transport; histories (as C02, incl. interrupted and resumed backups) with byte-for-byte snapshots of the archive before/after every step; and two backups of differing sources racing on one archive under schedules (A runs i ops, B runs j, A runs k, for i,j<=10, plus random schedules); non-trivial = history with more than one backup / schedule in which both actors move; distinct by seed and schedule");
             c07::run(&tier, seed, &mut report);
+            plumbing::c07_ids_beyond_9999(&mut report);
         }
         "C08" => {
             report = Report::new("C08", "archives written directly in the documented format by the harness's own encoder: every arrangement of {absent, incomplete, complete} versions over small path pools with every subset of entries cut into hunks in every way (2 and 3 versions), plus random layouts of up to 8 versions in every state (no directory, directory only, empty/junk/missing head, no index directory, open, closed, tail without readable head, unreadable tail) with empty hunks and deleted/junk/zero-length hunk files; each version listed unfiltered and with subtrees and exclusions; non-trivial = the rule's chain visits at least two versions; distinct by canonical text of layout and query");
@@ -134,6 +137,7 @@ fn main() {
             c13::run(&tier, seed, &mut report);
             // the JSON layer: real hunk bytes and malformed variants against Json.lean
             c13json::run(&tier, seed, &mut report);
+            plumbing::c13_stray_dir_in_index(&mut report);
         }
         "C13J" => {
             // the JSON-layer step of C13 on its own (for replay and development)
